@@ -169,6 +169,11 @@ func (s *KeyStore) pushASNring(data []byte, path string) (err error) {
 	curPath := path + keyringSuffix
 	newPath := path + keyringSuffix + newSuffix
 	err = s.fs.Put(newPath, data)
+	if err == backend.ErrExist {
+		// An earlier update was interrupted between Put and Rename. We hold the exclusive
+		// lock, so nobody is writing that file now and its content was never committed.
+		err = s.replaceStaleRing(newPath, data)
+	}
 	if err != nil {
 		return err
 	}
@@ -177,4 +182,21 @@ func (s *KeyStore) pushASNring(data []byte, path string) (err error) {
 		return err
 	}
 	return nil
+}
+
+// replaceStaleRing puts data at newPath which holds a leftover of an interrupted update.
+// The backend can only replace a path by renaming another one over it, so the data goes
+// through a second temporary path. A leftover there (of an interrupted replacement)
+// is moved over the first one before, so that no sequence of interruptions blocks updates.
+func (s *KeyStore) replaceStaleRing(newPath string, data []byte) error {
+	tmpPath := newPath + newSuffix
+	err := s.fs.Rename(tmpPath, newPath)
+	if err != nil && err != backend.ErrNotExist {
+		return err
+	}
+	err = s.fs.Put(tmpPath, data)
+	if err != nil {
+		return err
+	}
+	return s.fs.Rename(tmpPath, newPath)
 }
